@@ -89,7 +89,8 @@ Inductive apred :=
 | ACmpTs (op : cmpop) (part : str) (txt : str)
 | ATs (part : str) (txt : str)
 | AExists
-| AFieldRef (f2 : str) (sw ew : bool).
+| AFieldRef (f2 : str) (sw ew : bool)
+| AQx (id : str).                                       (* query expression of a placeholder: field qx id *)
 Record atom := { a_neg : bool; a_field : str; a_pred : apred }.
 
 (* ---------------------------------------------------------------------------------------------- *)
@@ -173,7 +174,8 @@ Inductive okind :=
 | KFF (sw ew : bool)
 | KCmp (op : cmpop)
 | KNull
-| KNum.
+| KNum
+| KQx.
 Definition optable : list (str * okind) :=
   [ (s " startswith ", KStr false false OpStartswith); (s " !startswith ", KStr true false OpStartswith);
     (s " endswith ", KStr false false OpEndswith);     (s " !endswith ", KStr true false OpEndswith);
@@ -184,7 +186,7 @@ Definition optable : list (str * okind) :=
     (s " cendswith ", KStr false true OpEndswith);     (s " !cendswith ", KStr true true OpEndswith);
     (s " ccontains ", KStr false true OpContains);     (s " !ccontains ", KStr true true OpContains);
     (s " fstartswith ", KFF true false); (s " fendswith ", KFF false true); (s " fcontains ", KFF true true);
-    (s " is null", KNull); (s " num ", KNum);
+    (s " is null", KNull); (s " num ", KNum); (s " qx ", KQx);
     (s "=~/", KRe false); (s "!~/", KRe true);
     (s "==", KFF false false);
     (s "!=", KStr true false OpEq);
@@ -224,6 +226,7 @@ Definition dec_op (W : char -> bool) (f : str) (rest : str) : option atom :=
       end
   | Some (KNull, []) => Some {| a_neg := false; a_field := f; a_pred := ANull |}
   | Some (KNum, (_ :: _) as v) => Some {| a_neg := false; a_field := f; a_pred := ATok v |}
+  | Some (KQx, (_ :: _) as v) => Some {| a_neg := false; a_field := f; a_pred := AQx v |}
   | _ => None
   end.
 
